@@ -154,16 +154,38 @@ func shape(id string, mr1, mr4 *ppb.Patient) any {
 		return mr4
 	case "mixed":
 		return C{mr1.Name[1], system.Integer(3), mr1.Name[0].Family}
-	case "badIn1":
-		return C{system.Integer(1), 5}
-	case "badIn2":
-		return C{system.Integer(1), C{system.String("x"), unsupported{1}}}
 	case "badTop":
 		return 5
 	case "nilTop":
 		return nil
-	case "nilIn":
-		return C{system.Integer(1), nil}
+	}
+	// generated shapes "bad-<path>" / "nil-<path>": the offending leaf First, in
+	// the Middle or Last among two valid siblings at every nesting level
+	// (outermost level first), see spec/C17.tla Build.
+	if len(id) > 4 && (id[:4] == "bad-" || id[:4] == "nil-") {
+		path := id[4:]
+		var v any
+		if id[:3] == "bad" {
+			if len(path)%2 == 1 {
+				v = 5
+			} else {
+				v = unsupported{1}
+			}
+		}
+		for i := len(path) - 1; i >= 0; i-- {
+			g1, g2 := any(system.Integer(1)), any(system.String("g"))
+			switch path[i] {
+			case 'F':
+				v = C{v, g1, g2}
+			case 'M':
+				v = C{g1, v, g2}
+			case 'L':
+				v = C{g1, g2, v}
+			default:
+				lib.Fatal("bad shape path %q", id)
+			}
+		}
+		return v
 	}
 	lib.Fatal("unknown shape %q", id)
 	return nil
